@@ -94,8 +94,8 @@ Definition rs_offset (s : list Z) : option (option Z * list Z) :=
       match (if isend s2 then Some (0, s2) else rs_parse_int 2 s2 0) with
       | None => None
       | Some (tzm, s3) =>
-        let tzminute := (tzm + tzh * 60) * sign in
-        if tzminute >? 24 * 60 then None else Some (Some (tzminute * 60), s3)
+        let tzminute := (tzm + tzh * 60) * sign in                       (* the bound is tested BEFORE the sign is applied: 24 h and more rejected *)
+        if tzm + tzh * 60 >=? 24 * 60 then None else Some (Some (tzminute * 60), s3)
       end
     end
   else Some (None, s).
@@ -374,7 +374,9 @@ Definition py_tz_offset (tz : list Z) : result Z :=
                  | Some (a, b) => (a, b)
                  end in
     match int_of_str (fst parts), int_of_str (snd parts) with
-    | Ok hh, Ok mm => let o := (hh * 60 + mm) * 60 in Ok (if negative then -1 * o else o)
+    | Ok hh, Ok mm => let o := (hh * 60 + mm) * 60 in
+                      if o >=? 24 * 60 * 60 then Raise E_ParserError            (* "Timezone offset is too large" *)
+                      else Ok (if negative then -1 * o else o)
     | _, _ => Raise E_ValueError
     end
   | [] => Raise E_ValueError
